@@ -87,7 +87,11 @@ class SaveSensors:
     """Crash Hoare logic on the real save: at every file operation boundary, every state a crash can
     leave recovers to the complete old or the complete new state; same after a failing operation."""
 
-    configs = [{"fmt": f, "prior": p, "fault": k} for f in ("json", "pickle") for p in PRIORS for k in [None] + list(range(N_OPS))]
+    # a fault is an I/O error of one file operation - or the serialiser failing because the network changed under it
+    # ("dictionary changed size during iteration": a RuntimeError out of the first or the second half of the dump)
+    configs = [{"fmt": f, "prior": p, "fault": k} for f in ("json", "pickle") for p in PRIORS for k in [None] + list(range(N_OPS))] + [
+        {"fmt": f, "prior": p, "fault": k, "serialiser_fails": True} for f in ("json", "pickle") for p in ("none", "main", "main+bak") for k in (1, 2)
+    ]
 
     def setup(h):
         c = h.config
@@ -95,13 +99,15 @@ class SaveSensors:
         v_old = _prior(h, fs, c["prior"])
         new = _new_content(h)
         fs.fault_at = c["fault"]
-        tag = f"save_sensors[{c['fmt']},{c['prior']},fault={c['fault']}]"
+        if c.get("serialiser_fails"):
+            h.it.env["dump_fault"] = RuntimeError
+        tag = f"save_sensors[{c['fmt']},{c['prior']},fault={c['fault']}{',serialiser' if c.get('serialiser_fails') else ''}]"
         fs.obligation_hook = _crash_hook(h, v_old, view(new), tag)
         h.it.env.update(v_old=v_old, v_new=view(new), crash_tag=tag)
         return [p], {}
 
     # an I/O error may only come out of a save in which an operation actually failed
-    raises = {OSError: lambda old, self: fault_happened()}
+    raises = {OSError: lambda old, self: fault_happened(), RuntimeError: lambda old, self: fault_happened()}
 
     exc_ensures = {
         # a failed save keeps the state marked unsaved ...
